@@ -307,3 +307,48 @@ MODULES["Banded"] = dict(
         dict(name="band_sub_assign_s", file=BND, impl=r"SubAssign<T>forBanded<T>$", fn="sub_assign"),
         dict(name="band_mul", file=BND, impl=r"Mul<&Vector<T>>for&Banded<T>$", fn="mul"),
     ])
+
+# ---------------------------------------------------------------------------------------------------- Sparse (Model/Sparse.v)
+import rust2coq as _r
+_r.LISTS["vect"] = ("tuple", ["usize", "usize", "elem"])
+GTYPES["sp"] = "(sparse A)"
+GTYPES["vect"] = "(list (nat * nat * (T A)))"
+RUST_TYPES.append((r"^Sparse<(T|f64)>$", "sp"))
+RUST_TYPES.append((r"^Vec<\(usize,usize,T\)>$", "vect"))
+_SPF = ["rows", "cols", "nonzero", "val", "row_index", "col_start"]
+_SPG = {"rows": "sp_rows", "cols": "sp_cols", "nonzero": "sp_nonzero", "val": "sp_val", "row_index": "sp_row_index", "col_start": "sp_col_start"}
+_SPT = {"rows": "usize", "cols": "usize", "nonzero": "usize", "val": "vec", "row_index": "vecn", "col_start": "vecn"}
+for _f in _SPF:
+    FIELDS[("sp", _f)] = ("(%s {0})" % _SPG[_f], _SPT[_f])
+    SETFIELDS[("sp", _f)] = "(mkS " + " ".join("{1}" if g == _f else "(%s {0})" % _SPG[g] for g in _SPF) + ")"
+STRUCTS["Sparse"] = (_SPF, "(mkS {0} {1} {2} {3} {4} {5})", "sp")
+METHODS.update({
+    ("vecn", "len", 0): dict(g="length {0}", ret="usize"),
+    ("vecn", "size", 0): dict(g="length {0}", ret="usize"),
+    ("vecn", "push", 1): dict(g="{0} ++ [{1}]", ret="unit", out=["recv"], args=["usize"]),
+    ("vect", "push", 1): dict(g="{0} ++ [{1}]", ret="unit", out=["recv"], args=[("tuple", ["usize", "usize", "elem"])]),
+    ("sp", "col_index", 0): dict(g="sp_col_index {0}", ret="vecn", fallible=True),
+    ("sp", "col_start_from_index", 1): dict(g="sp_col_start_from_index {0} {1}", ret="vecn", fallible=True, args=["vecn"]),
+    ("sp", "to_triplets", 0): dict(g="sp_to_triplets {0}", ret="vect", fallible=True),
+    ("sp", "multiply", 1): dict(g="sp_mul {0} {1}", ret="vec", fallible=True, args=["vec"]),
+    ("sp", "transpose_multiply", 1): dict(g="sp_tmul {0} {1}", ret="vec", fallible=True, args=["vec"]),
+})
+PATHS[("Vector::empty", 0)] = dict(g="(@nil (T A))", ret="vec", atom=True)
+PATHS[("Sparse::new_nonzero", 3)] = dict(g="mkS {0} {1} {2} (repeat (@zero A) {2}) (repeat 0 {2}) (repeat 0 ({1} + 1)%nat)", ret="sp", args=["usize"] * 3)
+SPR = "src/sparse.rs"
+SP_IMPL = r"^<T:Copy\+Number\+std::fmt::Debug>Sparse<T>$"
+MODULES["Sparse"] = dict(
+    imports="From OV Require Import Base.Panic Base.Arith Model.Vector Model.Matrix Model.Sparse gen.SrcPrelude.",
+    funcs=[
+        dict(name="sp_new_nonzero", file=SPR, impl=SP_IMPL, fn="new_nonzero"),
+        dict(name="sp_from_vecs", file=SPR, impl=SP_IMPL, fn="from_vecs"),
+        dict(name="sp_col_index", file=SPR, impl=SP_IMPL, fn="col_index", locals={"temp": "vecn"}),
+        dict(name="sp_col_start_from_index", file=SPR, impl=SP_IMPL, fn="col_start_from_index"),
+        dict(name="sp_scale", file=SPR, impl=SP_IMPL, fn="scale"),
+        dict(name="sp_mul", file=SPR, impl=SP_IMPL, fn="multiply"),
+        dict(name="sp_tmul", file=SPR, impl=SP_IMPL, fn="transpose_multiply"),
+        dict(name="sp_transpose", file=SPR, impl=SP_IMPL, fn="transpose"),
+        dict(name="sp_ident_pre", file=SPR, impl=SP_IMPL, fn="identity_preconditioner"),
+        dict(name="sp_to_triplets", file=SPR, impl=SP_IMPL, fn="to_triplets", locals={"triplets": "vect"}),
+        dict(name="sp_to_dense", file=SPR, impl=SP_IMPL, fn="to_dense"),
+    ])
